@@ -243,10 +243,17 @@ def prop(line, impl, model):
             if got.get(k) != ("1" if w else "0"):
                 return "%s(%s) = %s but the address is %s%s" % (fn, show_ip(b), got.get(k), "" if w else "not ", what)
         return None
-    if op == "strip":
+    if op in ("strip", "stripmf"):
         d = parse_structure(a[2])
         if d is None:
             return None if impl == "unchanged" else "input that does not parse as SDP was not returned unchanged"
+        if op == "stripmf" and impl == "unchanged":
+            # desc.Marshal() failed and the function fell back to the ORIGINAL text
+            left = [x for attrs in d for x in attrs if must_drop(x)]
+            if left:
+                return ("desc.Marshal() failed and the fall-back returned the unstripped description: host candidate with address %s "
+                        "survives the stripping step" % show_ip(left[0][3]))
+            return None
         if impl.startswith("!output-unparsable"):
             return "output of the stripping step no longer parses as SDP"
         if not impl.startswith("keep="):
@@ -287,6 +294,8 @@ def key_of(line, impl, model):
     if a[1] == "ipclass":
         return "ip-classification"
     p = prop(line, impl, model) or ""
+    if "fall-back returned the unstripped" in p:
+        return "marshal-failed-fallback-leaks"
     if "survives" in p:
         return "local-host-candidate-kept"
     if "lost, reordered" in p:
@@ -350,7 +359,9 @@ def text_oracle(remarshalled, out):
 
 def parse_lstruct(tok):
     """lstruct token (coq/Run/SdpstripRun.v) -> None (pion rejects the text) or
-    dict(exact, session=[ids], media=[(heads, attrs)]), attrs as in parse_structure"""
+    dict(exact, marshal_failed, session=[ids], media=[(heads, attrs)]), attrs as in parse_structure;
+    marshal_failed = desc.Marshal() of the stripped description returned an error when the driver re-ran the
+    library calls of util.StripLocalAddresses (then the function falls back to the original text)"""
     if tok == "U":
         return None
     parts = tok.split(";")
@@ -367,7 +378,7 @@ def parse_lstruct(tok):
                 i, t, ad = a[1:].split(".")
                 attrs.append((int(i), "c", t, None if ad == "n" else bytes.fromhex(ad)))
         media.append((heads, attrs))
-    return dict(exact=parts[0] == "1", session=sess, media=media)
+    return dict(exact=parts[0][:1] == "1", marshal_failed=parts[0].endswith("F"), session=sess, media=media)
 
 
 def lstruct_lines(d):
@@ -416,6 +427,12 @@ def lines_prop(line, impl, model):
     d = parse_lstruct(a[2])
     if d is None:
         return None if impl == "unchanged" else "input that does not parse as SDP was not returned unchanged"
+    if d["marshal_failed"] and impl == "unchanged":
+        n = ndrop(d)
+        if n:
+            return ("desc.Marshal() failed and the fall-back returned the unstripped description: %d local host candidate line(s) survive "
+                    "the stripping step" % n)
+        return None
     if not impl.startswith("lines="):
         return "unexpected driver answer " + impl[:80]
     got = [] if impl == "lines=-" else impl[6:].split(",")
@@ -430,6 +447,8 @@ def lines_key(line, impl, model):
     if impl.startswith("!panic"):
         return "strip-panic"
     p = lines_prop(line, impl, model) or ""
+    if "fall-back returned the unstripped" in p:
+        return "marshal-failed-fallback-leaks"
     if "survives" in p:
         return "local-host-candidate-kept"
     if "was not preserved" in p:
@@ -464,6 +483,9 @@ def send_prop(line, impl, model):
         return None if impl == "same" else "%s: text that does not parse as SDP was not passed on unchanged" % what
     drop = ndrop(d)
     if impl == "same":
+        if drop and d["marshal_failed"]:
+            return ("%s: desc.Marshal() failed and the fall-back returned the unstripped description: it contains %d local host candidate "
+                    "line(s) although local addresses are not kept%s" % (what, drop, cfg))
         if drop:
             return "%s is the unstripped description: it contains %d local host candidate line(s) although local addresses are not kept%s" % (what, drop, cfg)
         return None if d["exact"] else "%s: driver reports byte-identical text where pion's re-marshalling differs" % what
@@ -483,6 +505,8 @@ def send_key(line, impl, model):
     if impl.startswith("!panic") or impl == "!died":
         return name + "-panic"
     p = send_prop(line, impl, model) or ""
+    if "fall-back returned the unstripped" in p:
+        return "marshal-failed-fallback-leaks"
     if "although local addresses are not kept" in p:
         return name + "-leaks-local"
     if "explicitly kept" in p:
@@ -583,7 +607,11 @@ def run(ctx):
     ctx.trusted += ["pion/sdp Unmarshal/Marshal, pion/ice UnmarshalCandidate and net.ParseIP: the driver parses input and output text with them; "
                     "the model starts from the parsed structure (panic freedom of these parsers is observed, not proved)",
                     "python ipaddress module: independent oracle for the address ranges named by the property"]
-    ctx.assumptions += ["model = coq/Model/IpClass.v, coq/Model/SdpStrip.v (hand written); net.IP.To4/Equal/IsLoopback/IsUnspecified modelled and validated by the ipclass cases",
+    ctx.assumptions += ["library contract: desc.Marshal() does not fail on an unmarshalled description with attributes removed (pion/sdp v3.0.5: "
+                        "unconditional nil error); when it fails util.StripLocalAddresses returns the ORIGINAL text (C08_marshal_failure_sends_original). "
+                        "The driver re-runs the pion calls on every text (as parsed / as stripped / without candidates) and reports failures in "
+                        "evidence field marshal_contract; a fall-back that leaks is key marshal-failed-fallback-leaks",
+                        "model = coq/Model/IpClass.v, coq/Model/SdpStrip.v (hand written); net.IP.To4/Equal/IsLoopback/IsUnspecified modelled and validated by the ipclass cases",
                         "a 'host candidate' is an a=candidate attribute of a media section that pion/ice parses with type host; "
                         "candidate lines pion/ice rejects are kept verbatim (class BadCand in the model)"]
     il, ik = ipclass_cases(ctx)
@@ -624,29 +652,42 @@ def run(ctx):
         return
     lines, kinds = [], []
     nparsed = 0
+    mstat = dict(cases=0, marshal_failed=0, fallback_taken=0)
+    ctx.extra["marshal_contract"] = mstat
     for (k, t), r in zip(texts, res):
         if r.startswith("!panic"):
             ctx.violation("strip-panic", "StripLocalAddresses panicked on %r: %s" % (t[:300], r[:200]), dict(label="parse", case="%s parse x%s" % (AREA, t.hex())))
             continue
-        st, out, rem, stable = r.split(" ")
-        out, rem = bytes.fromhex(out[1:]), bytes.fromhex(rem[1:])
-        line = "%s strip %s x%s" % (AREA, st, t.hex())
+        st, out, rem, stable, mf = r.split(" ")
+        out, rem, mf = bytes.fromhex(out[1:]), bytes.fromhex(rem[1:]), int(mf)
+        # library contract "Marshal does not fail on an unmarshalled description", observed on every case
+        mstat["cases"] += 1
+        if mf:
+            mstat["marshal_failed"] += 1
+        fellback = bool(st != "U" and (mf & 2) and out == t)
+        if fellback:
+            mstat["fallback_taken"] += 1
+        line = "%s %s %s x%s" % (AREA, "stripmf" if mf & 2 else "strip", st, t.hex())
         if st == "U":
             if out != t:
                 ctx.violation("unparsable-changed", "input that does not parse as SDP was not returned unchanged: %r" % t[:200], dict(label="text", case=line))
         else:
             nparsed += 1
-            bad = text_oracle(rem, out)
+            # the fall-back returns the text as it was: judge that text itself
+            bad = text_oracle(t if (fellback or mf & 1) else rem, out)
             if bad:
-                ctx.violation(bad[0], "text level: " + bad[1], dict(label="text", case=line, input=t.decode("utf-8", "replace")[:4000],
-                                                                    output=out.decode("utf-8", "replace")[:4000]))
+                key, msg = bad
+                if fellback and key == "local-host-candidate-kept":
+                    key, msg = "marshal-failed-fallback-leaks", "desc.Marshal() failed and the fall-back returned the unstripped description: " + msg
+                ctx.violation(key, "text level: " + msg, dict(label="text", case=line, input=t.decode("utf-8", "replace")[:4000],
+                                                              output=out.decode("utf-8", "replace")[:4000]))
         if st != "U" and stable != "1":
             # pion's Marshal/Unmarshal do not round-trip on this text (e.g. a bare CR inside a value): only the
             # text-level comparison against pion's own re-marshalling and the no-panic observation apply
             ctx.count(line, kind="strip:" + k + ":pion-unstable(text-level only)")
             continue
         lines.append(line)
-        kinds.append("strip:" + k + (":unparsable" if st == "U" else ""))
+        kinds.append("strip:" + k + (":unparsable" if st == "U" else "") + (":marshal-failed" if mf & 2 else ""))
     ctx.extra["texts_parsed_by_pion"] = nparsed
     ctx.extra["texts_rejected_by_pion"] = len(texts) - nparsed
     ll, lk, usable = lines_cases(ctx, exe, texts)
@@ -661,7 +702,7 @@ def run(ctx):
 C08_ARGS = ["-test.run", "^TestVerifC08Driver$", "-verif.c08"]
 
 
-IGNORED_LAST = ("strip", "lines", "psend", "csend", "csendc", "peer", "peerg")
+IGNORED_LAST = ("strip", "stripmf", "lines", "psend", "csend", "csendc", "peer", "peerg")
 
 
 def crosscheck_once(ctx, pools, n):
@@ -720,7 +761,10 @@ def lines_cases(ctx, exe, texts):
         if r.startswith("!"):
             ctx.violation("strip-panic", "pion panicked on %r: %s" % (t[:300], r[:200]), dict(label="lparse", case="%s lparse x%s" % (AREA, t.hex())))
             continue
-        tok, stable = r.split(" ")
+        tok, stable, mf = r.split(" ")
+        ms = ctx.extra.setdefault("marshal_contract_lines", dict(cases=0, marshal_failed=0))
+        ms["cases"] += 1
+        ms["marshal_failed"] += 1 if int(mf) else 0
         if tok != "U" and stable != "1":
             continue    # pion does not read its own output back to the same lines: covered at text level above
         lines.append("%s lines %s x%s" % (AREA, tok, t.hex()))
@@ -863,15 +907,18 @@ def replay(ctx, doc):
             continue
         if a[1] == "parse":
             a = [a[0], "strip", "U", a[2]]
-        if a[1] == "strip":
+        if a[1] in ("strip", "stripmf"):
             rc, r1, err = vlib.run_impl(exe, ["%s parse %s" % (AREA, a[3])])
             if not r1 or r1[0].startswith("!"):
                 print("case: %s\n impl: %s\n property: fails (panic)" % (case[:300], r1[:1] or err[-300:]))
                 bad += 1
                 continue
-            st, out, rem, stable = r1[0].split(" ")
-            case = "%s strip %s %s" % (AREA, st, a[3])
-            t = text_oracle(bytes.fromhex(rem[1:]), bytes.fromhex(out[1:])) if st != "U" else None
+            st, out, rem, stable, mf = r1[0].split(" ")
+            case = "%s %s %s %s" % (AREA, "stripmf" if int(mf) & 2 else "strip", st, a[3])
+            fellback = st != "U" and int(mf) and out[1:] == a[3][1:]
+            print("desc.Marshal() failures when the driver re-runs the library calls (1 as parsed, 2 as stripped, 4 without candidates): %s%s" % (
+                mf, "; the function returned its input: fall-back branch" if fellback else ""))
+            t = text_oracle(bytes.fromhex(a[3][1:] if fellback else rem[1:]), bytes.fromhex(out[1:])) if st != "U" else None
             print("input:\n%s\noutput:\n%s\ntext-level property: %s" % (bytes.fromhex(a[3][1:]).decode("utf-8", "replace"),
                                                                        bytes.fromhex(out[1:]).decode("utf-8", "replace"), t[1] if t else "holds"))
             bad += 1 if t else 0
